@@ -1,5 +1,5 @@
 """Core-word dispatch rules (C11): P1 result numbering, P2 stack profile maintenance, P3 unsupported operand."""
-from zw import walk, walk_nolambda, unwrap, short, Broken, calls, field_chain
+from zw import null_case_region, walk, walk_nolambda, unwrap, short, Broken, calls, field_chain
 from cfg import CFG
 from r_pred import VEC_SHAPE
 
@@ -123,19 +123,11 @@ def p3(prog):
     f = prog.func_opt("overload_op::next")
     if f is None:
         raise Broken("anchor overload_op::next vanished")
-    # the branch taken when no overload matches: condition `get<0>(ovl) == nullptr`
-    hit = None
-    for x in walk(f["body"]):
-        if x.get("k") == "if":
-            c = x["c"]
-            if any(y.get("k") == "call" and y.get("f", "").startswith("std::get<0") for y in walk(c)) and \
-               any(y.get("k") == "null" for y in walk(c)):
-                hit = x
-    if hit is None:
-        raise Broken("overload_op::next no longer tests the result of find_exec against nullptr (unmodelled shape)")
-    then = hit["then"]
-    diag = any(c.get("fn") == "show_error" for c in calls(then))
-    yields = any(y.get("k") == "return" for y in walk(then)) or any(c.get("fn") in ("set_next", "emplace") for c in calls(then))
+    # the branch taken when no overload matches: `get<0>(find_exec(..)) == nullptr` in any spelling
+    hit, region, _ = null_case_region(f, lambda c: c.get("fn") == "find_exec", True, "find_exec")
+    diag = any(c.get("fn") == "show_error" for st in region for c in calls(st))
+    yields = any(y.get("k") == "return" and not _is_null_return(y) for st in region for y in walk(st)) or \
+        any(c.get("fn") in ("set_next", "emplace") for st in region for c in calls(st))
     inst.append(("P3:overload_op::next", {"diagnostic": diag, "yields_or_feeds": yields}))
     if not diag or yields:
         findings.append({"key": "P3:overload_op::next", "where": hit["l"],
@@ -150,16 +142,19 @@ def p3(prog):
     g = prog.func_opt("overload_pred::result")
     if g is None:
         raise Broken("anchor overload_pred::result vanished")
-    ok = False
-    for x in walk(g["body"]):
-        if x.get("k") == "if" and any(y.get("k") == "null" for y in walk(x["c"])):
-            rets = [r for r in walk(x["then"]) if r.get("k") == "return"]
-            ok = bool(rets) and all(isinstance(unwrap(r["e"]), dict) and unwrap(r["e"]).get("n") == "fail" for r in rets) and \
-                any(c.get("fn") == "show_error" for c in calls(x["then"]))
+    hit, region, _ = null_case_region(g, lambda c: c.get("fn") == "find_pred", False, "find_pred")
+    rets = [r for st in region for r in walk(st) if r.get("k") == "return"]
+    ok = bool(rets) and all(isinstance(unwrap(r.get("e")), dict) and unwrap(r["e"]).get("n") == "fail" for r in rets) and \
+        any(c.get("fn") == "show_error" for st in region for c in calls(st))
     inst.append(("P3:overload_pred::result", {"fails_with_diagnostic": ok}))
     if not ok:
         findings.append({"key": "P3:overload_pred::result", "where": g["l"], "msg": "a predicate word applied to unsupported operand types must print a diagnostic and answer `fail` (neither ?x nor !x holds)", "detail": None})
     return inst, findings
+
+
+def _is_null_return(r):
+    e = unwrap(r.get("e")) if r.get("e") is not None else None
+    return e is None or (isinstance(e, dict) and (e.get("k") == "null" or short(e) in ("nullptr", "std::unique_ptr{nullptr}")))
 
 
 # ---------------------------------------------------------------------------
@@ -254,7 +249,7 @@ def p2b(prog, tier="quick"):
         "stack::pop": lambda ev, o, a: ev.call(meth["pop"], o, a),
         "ctor:std::runtime_error": lambda ev, o, a: "exc",
     }
-    ev = Evaluator(hooks, {"selector::W": W}, ptr_lt=True)
+    ev = Evaluator(hooks, {"selector::W": W}, ptr_lt=True, prog=prog)
 
     def expect(st):
         v = 0
